@@ -92,6 +92,11 @@ def features(doc) -> set:
                 f.add("formula")
             elif k == "pb":
                 f.add("page-break")
+    for u in doc["units"]:
+        tops = u["blocks"]
+        heads = [i for i, b in enumerate(tops) if b["k"] == "p" and b.get("h")]
+        if heads and heads[0] > 0:
+            f.add("flow.text-before-first-heading")
     if doc.get("header") or doc.get("footer"):
         f.add("excluded.header-footer")
     if doc.get("comments"):
@@ -158,6 +163,7 @@ def validate(doc):
         for b in bs:
             k = b["k"]
             if k == "p":
+                assert b["inl"]
                 inl(b["inl"], "BM")
             elif k == "list":
                 assert b["items"]
@@ -174,6 +180,7 @@ def validate(doc):
             else:
                 assert k in ("img", "math", "pb"), k
     assert doc["units"]
+    assert len(doc["units"]) > 1 or doc["units"][0]["blocks"], "a single-unit document is not empty"
     for u in doc["units"]:
         blocks(u["blocks"])
         if u.get("notes") is not None:
